@@ -13,6 +13,7 @@ import Xc.Lemmas.MD
 import Xc.Prim.Cores
 import Xc.Prim.Yescrypt
 import Xc.Prim.Streebog
+import Xc.Lemmas.Pbkdf2
 
 namespace Xc.C16
 open Xc MD
@@ -89,6 +90,25 @@ theorem C16_hmac_sha256 (key text : Bytes) :
        Sha256.hash (pad 0x5c ++ Sha256.hash (pad 0x36 ++ text))) :=
   C16_hmac Sha256.alg (by decide) key text
 
+
+/-! ### PBKDF2-HMAC-SHA256: the code's fast path is the standard function -/
+
+/-- one output block of the `c == 1` fast path of `PBKDF2_SHA256` (contexts padded once with `SHA256_Pad_Almost`, two compressions per
+    block, only the counter bytes rewritten) is RFC 2104 HMAC-SHA256 of `salt ‖ INT(i+1)`: every password, every salt whose last
+    partial block has at most 51 bytes (the guard of the code), every block index -/
+theorem C16_pbkdf2_fast_block (pw salt : Bytes) (i : Nat) (h : salt.length % 64 ≤ 51) :
+    Yes.fastBlock Sha256.alg 32 pw salt i = Yes.hmacSha256 pw (salt ++ toBe32 (i + 1).toUInt32) :=
+  Yes.fastBlock_eq Sha256.alg 32 (by decide) Yes.sha256_out_length (by decide) pw salt i (by show salt.length % 64 + 4 + 1 + 8 ≤ 64; omega)
+
+/-- `PBKDF2_SHA256` as written - fast path where its guard holds, generic loop otherwise - is RFC 8018 PBKDF2 with HMAC-SHA256,
+    for every password, salt, iteration count and output length -/
+theorem C16_pbkdf2_fast_path (pw salt : Bytes) (c dkLen : Nat) :
+    Yes.pbkdf2Impl pw salt c dkLen = Yes.pbkdf2Sha256 pw salt c dkLen :=
+  Yes.pbkdf2Impl_eq pw salt c dkLen
+
+/-- the fast path is really taken (guard true, no fall-back) for yescrypt's own calls: 32·k output bytes, c = 1, short salts -/
+example : let salt : Bytes := List.replicate 16 7
+    (1 = 1 ∧ 128 % 32 = 0 ∧ salt.length % 64 ≤ 51) ∧ ¬ ((64 + salt.length + 4) % 64 < (64 + salt.length) % 64 ∨ 56 ≤ (64 + salt.length + 4) % 64) := by decide
 
 /-! ### Streebog: streaming = one-shot -/
 section streebog
